@@ -210,3 +210,18 @@ def C11(t0):
         bounds=['byte strings of every length 0..=200 (bytes symbolic); all limb / byte values symbolic'],
         trusted=[T_RUSTC, T_ARK, 'W contracts: from_raw_bytes / from_le_limbs denote int mod p, to_bytes_le / to_le_limbs are the canonical digits; FIELD_SIZE_POWER_OF_TWO = 2^(8N) mod p is C17'],
         assumptions=['flag types modelled by their documented bit layout'])
+
+def C16(t0):
+    from . import consts, fields
+    _warm()
+    jobs = [('bls12_377 configuration constants', consts.check_bls_config, ()), ('ark Fp field constants', consts.check_field_constants, ('ark',)),
+            ('ark Fp integers/limbs/bytes/flags (point (de)serialisation goes through these)', fields.check_w_ark, ('Fp',)), ('ark Fp checked parsing', fields.check_bytes_checked, ('ark', 'Fp')),
+            ('ark Fp operator forms', fields.check_field_ops, ('ark', 'Fp')), ('ark Fp sums/products/methods', fields.check_field_iter_and_methods, ('ark', 'Fp')), ('ark Fp byte reduction', fields.check_mod_order, ('ark', 'Fp'))]
+    obs = par.run_groups(jobs)
+    return finish('C16', obs, t0, level='proof',
+        functions=['every constant of ark_curve/bls12_377.rs (Fp2/Fp6/Fp12 non-residues and Frobenius coefficient tables, G1/G2 curve coefficients, generators, cofactors and their inverses, X, X_IS_NEGATIVE, TWIST_TYPE)',
+                   'the Fp trait implementations the generic engine is instantiated with (arithmetic forms, from_bigint, flagged (de)serialisation)'],
+        bounds=['ground formulas for the constants (no input space); Fp conversions as in C11'],
+        trusted=[T_RUSTC, 'the engine is the generic ark-ec Bls12 code; equality of the configuration and of the field implementation is taken to be equality of the engine: pairing outputs "for all inputs", bilinearity and non-degeneracy are NOT decided',
+                 'reference values: the decimal literals in the source of ark-bls12-377 0.4.0 found in the cargo registry'],
+        assumptions=['partial claim: constants and the Fp trait layer only (DESIGN §3 C16)'])
